@@ -21,7 +21,7 @@ PLAN = {  # tier -> number of generated applications per class
     "thorough": {"free": 120, "inclass": 120},
 }
 BATCH = 40  # modules per workspace
-OPTIONAL_GENERATORS = [("gen_routes", "r"), ("gen_scopes", "s"), ("gen_errors", "e"), ("gen_mw", "w"), ("gen_own", "o"), ("gen_names", "n"), ("gen_generic", "x"), ("gen_deps", "d"), ("gen_stage", "t"), ("gen_config", "k")]
+OPTIONAL_GENERATORS = [("gen_routes", "r"), ("gen_scopes", "s"), ("gen_errors", "e"), ("gen_mw", "w"), ("gen_own", "o"), ("gen_names", "n"), ("gen_generic", "x"), ("gen_deps", "d"), ("gen_stage", "t"), ("gen_config", "q")]
 
 
 def _tool_hash():
@@ -98,6 +98,10 @@ def build_programs(R):
             spec["generator"] = modname
             # a family may bring its own source text (`raw_src`); `no_runtime` keeps it out of the runner binary
             progs.append({"name": name, "klass": spec["klass"], "spec": spec, "src": spec.get("raw_src") or gen_app.render(spec)})
+    names = [p["name"] for p in progs]
+    if len(names) != len(set(names)):
+        # a clash would silently drop programs (modules and observations are keyed by name): k = corpus, g = gen_app, p = planted
+        raise RuntimeError("program names clash: %s" % sorted({n for n in names if names.count(n) > 1}))
     return progs
 
 
